@@ -431,10 +431,11 @@ impl<T: Qcow2IoOps> Qcow2Dev<T> {
             let end = key_fn(((idx + 1) as u64) << bs_bits);
 
             let res = async {
-                if self.flush_cache(cache, start, end).await? {
-                    // order cache flush and the upper layer table
-                    self.call_fsync(0, usize::MAX, 0).await?;
-                }
+                self.flush_cache(cache, start, end).await?;
+                // order cache flush and the upper layer table. Slices of
+                // this range may have been written out by cache eviction
+                // without any sync, so sync even if nothing is flushed now
+                self.call_fsync(0, usize::MAX, 0).await?;
                 self.flush_table(rt, idx << bs_bits, 1 << bs_bits).await
             }
             .await;
